@@ -440,7 +440,7 @@ commentLineLoop:
 			} else if err != nil {
 				return "", err
 			}
-			if b == '\n' || b == '\r' || b > 32 {
+			if b == '\n' || b == '\r' || b == '\f' || b > 32 {
 				break
 			}
 			s.SkipByte()
@@ -452,7 +452,7 @@ commentLineLoop:
 				break
 			} else if err != nil {
 				return "", err
-			} else if b == '\n' { // LF
+			} else if b == '\n' || b == '\f' { // LF or FF
 				break
 			} else if b == '\r' { // CR or CR+LF
 				s.SkipOptionalByte(10)
